@@ -14,7 +14,7 @@ import ast
 from sa.model import AnalysisError, FuncInfo
 from sa.ctx import Ctx, short, stmt_key
 from sa.cfg import NORMAL, describe_path
-from sa.report import Report
+from sa.report import Report, section
 from sa.util import cfg_root, node_has_call, node_stores_attr, has_fact, fact_in, local_assigned_from
 from sa import pat
 
@@ -304,10 +304,10 @@ def h9(ctx, rep):
 
 def run(ctx: Ctx, rep: Report, tier: str):
     c = C19(ctx, rep)
-    c.h1()
-    c.h2()
-    c.h3()
-    c.h4_h6()
-    c.h7()
+    section(rep, c.h1)
+    section(rep, c.h2)
+    section(rep, c.h3)
+    section(rep, c.h4_h6)
+    section(rep, c.h7)
     h8(ctx, rep)
     h9(ctx, rep)
